@@ -7,7 +7,7 @@ func init() {
 	register(&propDef{
 		ID:  "C08",
 		Run: runC08,
-		Explain: "Decided: every construct that can panic (index, slice, integer division/modulo, signed shift, single-value type assertion, explicit panic, library preconditions of make/strings.Repeat/Grow/Must*) or spin (non-range for loops) in every function and closure of pkg/expressions{,/stdlib,/stdmath,/funcfile,/funclib}, pkg/stringSplitter, every KeyBuilderContext / stdmath.Context implementation, and everything of rare/... they reach on the VTA call graph, is discharged by the compiler's prove pass, by a dominating-guard rule (difference constraints from branch facts, inherited into closures for single-assignment captures), by a callee-guard rule, or by a reviewed entry naming the construct and the reason. " +
+		Explain: "Decided: every construct that can panic (index, slice, integer division/modulo, signed shift, single-value type assertion, explicit panic, library preconditions of make/strings.Repeat/Grow/Must*) or spin (non-range for loops) in every function and closure of pkg/expressions{,/stdlib,/stdmath,/funcfile,/funclib}, pkg/stringSplitter, every KeyBuilderContext / stdmath.Context implementation, and everything of rare/... they reach on the VTA call graph, is discharged by the compiler's prove pass, by a dominating-guard rule (difference constraints from branch facts, inherited into closures for single-assignment captures), by a callee-guard rule, or by a reviewed entry naming the construct and the reason. Pooled contexts are bound before use, returned on every exit and never returned twice (a twice-pooled context can become its own parent: unbounded recursion). " +
 			"NOT decided: memory exhaustion ({repeat x 1e7} style allocations), stack exhaustion by deeply nested templates (Compile recurses on strictly shorter arguments), nil dereferences other than pooled contexts (see C05/C10), and panics inside third-party code (gjson, dateparse) or the standard library beyond the frozen precondition table; that results are the *documented* strings is C11.",
 		Assume: []string{
 			"integer terms of the form length/index + small constant do not overflow",
